@@ -222,6 +222,12 @@ def _act_str(a):
 
 # timer names that contain pattern characters (a name is just a string): 0, 1, 2 -> these
 ODD_NAMES = ["slot[1]", "slot1", "s*", "done?", "done!", "a.b", "a+b"]
+# different strings that a normalisation (Unicode NFC / NFKC, case folding, stripping) would make equal: different names
+LOOKALIKE_NAMES = ["caf\u00e9", "cafe\u0301", "Caf\u00e9", "\u00c5", "\u212b", "t", "t ", "T", "\uff54"]
+
+
+def _odd_list():
+    return LOOKALIKE_NAMES if CTX.scenario.get("odd_names") == 2 else ODD_NAMES
 
 
 def _num(x):
@@ -262,7 +268,7 @@ def _tname(i):
     if CTX.scenario.get("enum_names"):
         return _ENUM_NAMES[i] if i < len(_ENUM_NAMES) else "n%d#" % i
     if CTX.scenario.get("odd_names"):
-        return ODD_NAMES[i] if i < len(ODD_NAMES) else "n%d#" % i
+        return _odd_list()[i] if i < len(_odd_list()) else "n%d#" % i
     return str(i)
 
 
@@ -282,8 +288,8 @@ def _tnum(name):
         return int(m2.group(1)) if m2 else -1
     if CTX.scenario.get("odd_names"):
         name = str(name)
-        if name in ODD_NAMES:
-            return ODD_NAMES.index(name)
+        if name in _odd_list():
+            return _odd_list().index(name)
         m = re.fullmatch(r"n(\d+)#", name)
         return int(m.group(1)) if m else -1
     return int(name) if re.fullmatch(r"\d+", str(name)) else -1
